@@ -528,7 +528,7 @@ fn main() {
     }
 
     // Part A
-    let rounds = if miri { 2 } else { a.pick(400, 12_000) as u64 };
+    let rounds = if miri { 2 } else { a.pick(1_500, 30_000) as u64 };
     let mut rng = Rng::derive(a.seed, "C18", 0);
     for round in 0..rounds {
         let p = if miri {
@@ -549,7 +549,7 @@ fn main() {
         }
     }
     // Part B
-    let n = if miri { 300 } else { a.pick(1_000_000u64, 40_000_000) };
+    let n = if miri { 300 } else { a.pick(3_000_000u64, 60_000_000) };
     let workers = if miri { 1 } else { a.pick(4, 14) as u64 };
     std::thread::scope(|s| {
         for w in 0..workers {
